@@ -163,6 +163,62 @@ def interp : Nat → Com → State → Res
     | some (.bool false) => .ok s
     | _ => .stuck
 
+/-! ## `imp.eval_Sem`: the derivation it builds
+
+`eval_Sem c st` returns a proof term of `Sem c st st'` assembled from the theorems `Sem_Skip`,
+`Sem_Assign`, `Sem_seq`, `Sem_if1`, `Sem_if2`, `Sem_while_skip`, `Sem_while_loop` of library/hoare.json,
+following the evaluation of the program; `Deriv` is that tree, `Deriv.rules` the theorem names in the
+order of a pre-order walk of the proof term. -/
+
+inductive Deriv where
+  | skip
+  | assign
+  | seq (d1 d2 : Deriv)
+  | if1 (d : Deriv)
+  | if2 (d : Deriv)
+  | whileSkip
+  | whileLoop (d1 d2 : Deriv)
+  deriving Repr, Inhabited
+
+def Deriv.rules : Deriv → List String
+  | .skip => ["Sem_Skip"]
+  | .assign => ["Sem_Assign"]
+  | .seq d1 d2 => "Sem_seq" :: (d1.rules ++ d2.rules)
+  | .if1 d => "Sem_if1" :: d.rules
+  | .if2 d => "Sem_if2" :: d.rules
+  | .whileSkip => ["Sem_while_skip"]
+  | .whileLoop d1 d2 => "Sem_while_loop" :: (d1.rules ++ d2.rules)
+
+/-- Fuel-bounded model of `eval_Sem` (`none`: out of fuel, or a guard / assigned expression that does
+not evaluate, where the real function raises). -/
+def evalSem : Nat → Com → State → Option (Deriv × State)
+  | 0, _, _ => none
+  | _ + 1, .skip, s => some (.skip, s)
+  | _ + 1, .assign x e, s => match evalE s e with
+    | some (.int v) => some (.assign, upd s x v)
+    | _ => none
+  | n + 1, .seq c1 c2, s => match evalSem n c1 s with
+    | some (d1, s1) => match evalSem n c2 s1 with
+      | some (d2, s2) => some (.seq d1 d2, s2)
+      | none => none
+    | none => none
+  | n + 1, .cond b c1 c2, s => match evalE s b with
+    | some (.bool true) => match evalSem n c1 s with
+      | some (d, s2) => some (.if1 d, s2)
+      | none => none
+    | some (.bool false) => match evalSem n c2 s with
+      | some (d, s2) => some (.if2 d, s2)
+      | none => none
+    | _ => none
+  | n + 1, .while b inv c, s => match evalE s b with
+    | some (.bool true) => match evalSem n c s with
+      | some (d1, s1) => match evalSem n (.while b inv c) s1 with
+        | some (d2, s2) => some (.whileLoop d1 d2, s2)
+        | none => none
+      | none => none
+    | some (.bool false) => some (.whileSkip, s)
+    | _ => none
+
 /-! ## `compute_wp` and `get_vcs`
 
 `computeWp c pre0 q` is `c.compute_wp(q)` called on a fresh command object whose `pre` list was
@@ -610,6 +666,29 @@ def lexOKc : Com → Bool
   | .cond b c1 c2 => lexOK b && lexOKc c1 && lexOKc c2
   | .while b inv c => lexOK b && lexOK inv && lexOKc c
 
+/-- a command that is neither a sequence nor a conditional -/
+def atomicCom : Com → Bool
+  | .skip | .assign _ _ | .while _ _ _ => true
+  | _ => false
+
+/-- the shape of the programs parser2 can return: the first part of a sequence is neither a sequence
+(`;` nests to the right) nor a conditional (an else-branch extends as far as possible) -/
+def shapeOK : Com → Bool
+  | .seq c1 c2 => atomicCom c1 && shapeOK c1 && shapeOK c2
+  | .cond _ c1 c2 => shapeOK c1 && shapeOK c2
+  | .while _ _ c => shapeOK c
+  | _ => true
+
+/-- programs that `print_com` can express: of that shape, over the assertion language and identifiers -/
+def printableCom (c : Com) : Bool := shapeOK c && okCom c && lexOKc c
+
+def normNegCom : Com → Com
+  | .skip => .skip
+  | .assign x e => .assign x (normNeg e)
+  | .seq c1 c2 => .seq (normNegCom c1) (normNegCom c2)
+  | .cond b c1 c2 => .cond (normNeg b) (normNegCom c1) (normNegCom c2)
+  | .while b inv c => .while (normNeg b) (normNeg inv) (normNegCom c)
+
 /-! ## Parser
 
 Recursive descent that accepts exactly what Lark's LALR(1) parser accepts for parser2's grammar
@@ -754,41 +833,59 @@ abbrev CRes := Option (Com × List Tok)
 
 /-- cmd: "skip" | CNAME ":=" expr | "if" "(" cond ")" "then" cmd "else" cmd
        | "while" "(" cond ")" "{" ("[" cond "]")? cmd "}" | cmd ";" cmd   (right-nested) -/
+def assignRes (x : String) (res : PRes) : CRes :=
+  match res with
+  | some (e, r') => if isArithE e then some (.assign x e, r') else none
+  | none => none
+
+def condRes (rec : List Tok → CRes) (res : PRes) : CRes :=
+  match res with
+  | some (b, .rp :: .kthen :: r1) =>
+    if isCondE b then match rec r1 with
+      | some (c1, .kelse :: r2) => match rec r2 with
+        | some (c2, r3) => some (.cond b c1 c2, r3)
+        | none => none
+      | _ => none
+    else none
+  | _ => none
+
+def whileRes (rec : List Tok → CRes) (res : PRes) : CRes :=
+  match res with
+  | some (b, .rp :: .lbrace :: .lbrack :: r1) =>
+    if isCondE b then match pImp (parseFuel r1) r1 with
+      | some (inv, .rbrack :: r2) =>
+        if isCondE inv then match rec r2 with
+          | some (c, .rbrace :: r3) => some (.while b inv c, r3)
+          | _ => none
+        else none
+      | _ => none
+    else none
+  | some (b, .rp :: .lbrace :: r1) =>
+    if isCondE b then match rec r1 with
+      | some (c, .rbrace :: r3) => some (.while b etrue c, r3)
+      | _ => none
+    else none
+  | _ => none
+
+/-- one command that is not a sequence -/
+def pFirst (rec : List Tok → CRes) : List Tok → CRes
+  | .kskip :: r => some (.skip, r)
+  | .id x :: .assign :: r => assignRes x (pArith (parseFuel r) r)
+  | .kif :: .lp :: r => condRes rec (pImp (parseFuel r) r)
+  | .kwhile :: .lp :: r => whileRes rec (pImp (parseFuel r) r)
+  | _ => none
+
+/-- `cmd ";" cmd`, shift preferred: everything after the `;` belongs to the second part -/
+def seqCont (rec : List Tok → CRes) (first : CRes) : CRes :=
+  match first with
+  | some (c1, .semi :: r) => match rec r with
+    | some (c2, r') => some (.seq c1 c2, r')
+    | none => none
+  | res => res
+
 def pCmd : Nat → List Tok → CRes
   | 0, _ => none
-  | n + 1, ts =>
-    let first : CRes := match ts with
-      | .kskip :: r => some (.skip, r)
-      | .id x :: .assign :: r => match pArith (parseFuel r) r with
-        | some (e, r') => if isArithE e then some (.assign x e, r') else none
-        | none => none
-      | .kif :: .lp :: r => match pImp (parseFuel r) r with
-        | some (b, .rp :: .kthen :: r1) => if isCondE b then match pCmd n r1 with
-            | some (c1, .kelse :: r2) => match pCmd n r2 with
-              | some (c2, r3) => some (.cond b c1 c2, r3)
-              | none => none
-            | _ => none
-          else none
-        | _ => none
-      | .kwhile :: .lp :: r => match pImp (parseFuel r) r with
-        | some (b, .rp :: .lbrace :: .lbrack :: r1) => if isCondE b then match pImp (parseFuel r1) r1 with
-            | some (inv, .rbrack :: r2) => if isCondE inv then match pCmd n r2 with
-                | some (c, .rbrace :: r3) => some (.while b inv c, r3)
-                | _ => none
-              else none
-            | _ => none
-          else none
-        | some (b, .rp :: .lbrace :: r1) => if isCondE b then match pCmd n r1 with
-            | some (c, .rbrace :: r3) => some (.while b etrue c, r3)
-            | _ => none
-          else none
-        | _ => none
-      | _ => none
-    match first with
-    | some (c1, .semi :: r) => match pCmd n r with
-      | some (c2, r') => some (.seq c1 c2, r')
-      | none => none
-    | res => res
+  | n + 1, ts => seqCont (pCmd n) (pFirst (pCmd n) ts)
 
 def parseComToks (ts : List Tok) : Option Com :=
   match pCmd (ts.length + 1) ts with
